@@ -1,14 +1,24 @@
 /-
 C05 — The VCF from map carries the same information as the mapped alignment.
-First theorems; `T05_idx` / `T05_rel` are being added.
+
+`T05_idx`    : the `IdxCheck` iterator yields (contig, position) of every absolute index, in order
+               (all contigs non-empty); `idx_zero_length_counterexample` otherwise.
+`T05_decode` : per column, decoding every genotype string through REF/ALT gives the class of the
+               sample's aligned character; ALT alleles are distinct, all used, and equal REF only as N.
+`T05_rel`    : the decoded records are exactly `Spec.vcfSpec` (for every alignment of the right width),
+               for a reference without '-' bytes; `gap_in_reference_counterexample` otherwise.
+Proof machinery in `SkaModel/Lemmas/{IdxCheck,VcfColumn,VcfRel}.lean` (namespace `SkaModel.VCF`).
 -/
 import SkaModel.Impl.RefSka
 import SkaModel.Spec.MapSpec
 import SkaModel.Lemmas.Bytes
+import SkaModel.Lemmas.IdxCheck
+import SkaModel.Lemmas.VcfColumn
+import SkaModel.Lemmas.VcfRel
 
 namespace SkaModel.Props.C05
 
-open SkaModel SkaModel.Spec
+open SkaModel SkaModel.Spec SkaModel.VCF
 
 /-- REF/ALT classes: A, C, G, T stay, every other byte is N -/
 theorem T05_class : ∀ b : UInt8,
@@ -18,5 +28,234 @@ theorem T05_class : ∀ b : UInt8,
 /-- the spec's genotype class agrees with the code's allele class on everything but the gap -/
 theorem T05_vcfClass : ∀ b : UInt8, b ≠ 45 → vcfClass b = u8ToBase b :=
   forall_uint8 (by decide +kernel)
+
+/-! ### T05_idx -/
+
+/-- `IdxCheck` yields exactly (c, p) for absolute index `offset c + p`, in order, and stops after
+`Σ size` items — when every contig has at least one base -/
+theorem T05_idx (seq : List (Array UInt8)) (hsz : ∀ c ∈ seq, 1 ≤ c.size) :
+    RefSka.idxCheck seq
+      = seq.zipIdx.flatMap (fun ci => (List.range ci.1.size).map (fun p => (ci.2, p))) :=
+  idxCheck_eq_coords seq hsz
+
+/-- number of items = total length -/
+theorem T05_idx_length (seq : List (Array UInt8)) (hsz : ∀ c ∈ seq, 1 ≤ c.size) :
+    (RefSka.idxCheck seq).length = (seq.map (·.size)).sum := by
+  rw [T05_idx seq hsz]; exact coords_length seq
+
+/-- a zero-length contig in the middle breaks the iterator: with sizes [3, 0, 2] the fourth item is
+(1, 0) — a position inside the empty contig — instead of (2, 0). (The Rust would then index
+`self.seq[1][0]` and panic.) -/
+theorem idx_zero_length_counterexample :
+    RefSka.idxCheck [#[65, 67, 71], #[], #[84, 65]] = [(0, 0), (0, 1), (0, 2), (1, 0), (2, 1)] ∧
+    RefSka.idxCheck [#[65, 67, 71], #[], #[84, 65]] ≠
+      [#[65, 67, 71], #[], #[84, 65]].zipIdx.flatMap
+        (fun ci => (List.range ci.1.size).map (fun p => (ci.2, p))) := by
+  decide
+
+/-! ### T05_decode -/
+
+/-- the records are the columns with a variant, in column order -/
+theorem T05_records (r : RefSka) (aln : List (Array UInt8)) :
+    RefSka.vcfRecords r aln =
+      ((List.range (aln.headD #[]).size).zip (RefSka.idxCheck r.seq)).filterMap
+        (fun ic => vcfColumn r aln ic.1 ic.2.1 ic.2.2) :=
+  vcfRecords_eq r aln
+
+theorem T05_mem (r : RefSka) (aln : List (Array UInt8)) (rec : RefSka.VcfRecord) :
+    rec ∈ RefSka.vcfRecords r aln ↔
+      ∃ i c p, (i, c, p) ∈ (List.range (aln.headD #[]).size).zip (RefSka.idxCheck r.seq) ∧
+        vcfColumn r aln i c p = some rec := by
+  rw [T05_records, List.mem_filterMap]
+  constructor
+  · rintro ⟨⟨i, c, p⟩, h1, h2⟩; exact ⟨i, c, p, h1, h2⟩
+  · rintro ⟨i, c, p, h1, h2⟩; exact ⟨(i, c, p), h1, h2⟩
+
+/-- the genotype strings are the decimal rendering of allele indices
+(`none` ↦ ".", `some 0` ↦ "0", `some i` ↦ decimal of `i`), and decoding inverts the rendering -/
+theorem T05_render (rec : RefSka.VcfRecord) (gi : Option Nat) :
+    decodeGt rec (render gi) = decodeIdx rec.ref rec.alts gi :=
+  decodeGt_render rec gi
+
+theorem u8ToBase_eq_of_ne (b rb : UInt8) (hne : b ≠ rb) (h : u8ToBase b = u8ToBase rb) :
+    u8ToBase b = 78 := by
+  unfold u8ToBase at *
+  split at h <;> split at h <;> simp_all
+
+/-- a column yields a record iff some sample differs from the reference byte -/
+theorem T05_exists (r : RefSka) (aln : List (Array UInt8)) (i c p : Nat) :
+    (vcfColumn r aln i c p).isSome = true ↔
+      ∃ s ∈ aln, s.getD i GAP ≠ (r.seq.getD c #[]).getD p 0 := by
+  rw [vcfColumn_eq]
+  simp only
+  rw [(colInv_colIdx _ _).flag]
+  split
+  · rename_i h
+    simp only [Option.isSome_some, true_iff]
+    simpa using h
+  · rename_i h
+    simp only [Option.isSome_none, Bool.false_eq_true, false_iff]
+    simpa using h
+
+/-- the record of column `i` at (contig `c`, position `p`), with `rb` the stored reference byte:
+coordinates and REF; every genotype decodes (through REF/ALT) to `gtClass rb` of the sample's
+character — i.e. REF for a character equal to `rb`, otherwise `vcfClass`; if `rb` is not '-' this
+is `vcfClass` of the character for every sample. ALT alleles are distinct, each comes from a
+sample character that differs from `rb` and is not a gap, each is referenced by some genotype,
+and an ALT can equal REF only when both are N. -/
+theorem T05_decode (r : RefSka) (aln : List (Array UInt8)) (i c p : Nat) (rec : RefSka.VcfRecord)
+    (h : vcfColumn r aln i c p = some rec) :
+    rec.chrom = r.chromNames.getD c "" ∧ rec.pos = p + 1 ∧
+    rec.ref = u8ToBase ((r.seq.getD c #[]).getD p 0) ∧
+    rec.gts.map (decodeGt rec) = aln.map (fun s => gtClass ((r.seq.getD c #[]).getD p 0) (s.getD i GAP)) ∧
+    ((r.seq.getD c #[]).getD p 0 ≠ 45 →
+      rec.gts.map (decodeGt rec) = aln.map (fun s => vcfClass (s.getD i GAP))) ∧
+    rec.alts.Nodup ∧
+    (∀ a ∈ rec.alts, ∃ s ∈ aln, s.getD i GAP ≠ (r.seq.getD c #[]).getD p 0 ∧ s.getD i GAP ≠ 45 ∧
+      a = u8ToBase (s.getD i GAP)) ∧
+    (∀ a ∈ rec.alts, a = rec.ref → a = 78) ∧
+    (∀ j, j < rec.alts.length → toString (j + 1) ∈ rec.gts) := by
+  generalize hrb : (r.seq.getD c #[]).getD p 0 = rb
+  rw [vcfColumn_eq] at h
+  simp only [hrb] at h
+  have inv := colInv_colIdx rb (aln.map (fun s => s.getD i GAP))
+  split at h
+  · injection h with h
+    subst h
+    have hgts := decode_colIdx rb (aln.map (fun s => s.getD i GAP)) (r.chromNames.getD c "") (p + 1)
+    have hsrc : ∀ a ∈ (colIdx rb (aln.map (fun s => s.getD i GAP))).1,
+        ∃ s ∈ aln, s.getD i GAP ≠ rb ∧ s.getD i GAP ≠ 45 ∧ a = u8ToBase (s.getD i GAP) := by
+      intro a ha
+      obtain ⟨b, hb, h1, h2, h3⟩ := inv.src a ha
+      rw [List.mem_map] at hb
+      obtain ⟨s, hs, rfl⟩ := hb
+      exact ⟨s, hs, h1, h2, h3⟩
+    refine ⟨rfl, rfl, rfl, ?_, ?_, inv.nodup, hsrc, ?_, ?_⟩
+    · rw [hgts, List.map_map]; rfl
+    · intro hg
+      rw [hgts, List.map_map]
+      apply List.map_congr_left
+      intro s _
+      exact gtClass_eq_vcfClass rb _ hg
+    · intro a ha hEq
+      obtain ⟨s, _, h1, _, h3⟩ := hsrc a ha
+      rw [h3]
+      apply u8ToBase_eq_of_ne _ rb h1
+      rw [← h3]; exact hEq
+    · intro j hj
+      exact List.mem_map.mpr ⟨some (j + 1), inv.used j hj, rfl⟩
+  · cases h
+
+/-! ### T05_rel -/
+
+/-- Main relation. For a reference whose stored bytes are upper-case and never '-', all contigs
+non-empty, and EVERY alignment whose sequences have the total reference length: the records, read
+as (contig name, 1-based position, REF, decoded genotype characters), are exactly `Spec.vcfSpec`
+with the contig index replaced by its name. So a record exists at (c, p+1) iff some sample's
+character differs from the reference byte there, REF is the reference base (N if not A/C/G/T),
+records are in coordinate order and the sample order is preserved. -/
+theorem T05_rel (r : RefSka) (aln : List (Array UInt8))
+    (hsz : ∀ c ∈ r.seq, 1 ≤ c.size)
+    (hup : ∀ c ∈ r.seq, ∀ b ∈ c.toList, upperByte b = b)
+    (hgap : ∀ c ∈ r.seq, ∀ b ∈ c.toList, b ≠ 45)
+    (haln : ∀ s ∈ aln, s.size = (r.seq.map (·.size)).sum) :
+    (RefSka.vcfRecords r aln).map
+        (fun rec => (rec.chrom, rec.pos, rec.ref, rec.gts.map (decodeGt rec))) =
+      (vcfSpec r.seq (aln.map Array.toList)).map
+        (fun x => (r.chromNames.getD x.1 "", x.2.1, x.2.2.1, x.2.2.2)) :=
+  records_eq_spec r aln hsz hup hgap haln
+
+/-- the same against the original (mixed-case) reference `ref`, `r.seq` being its upper-casing as
+`RefSka.new` stores it -/
+theorem T05_rel_ref (r : RefSka) (ref : List (Array UInt8)) (aln : List (Array UInt8))
+    (hr : r.seq = ref.map (fun c => c.map toUpper))
+    (hsz : ∀ c ∈ ref, 1 ≤ c.size)
+    (hgap : ∀ c ∈ ref, ∀ b ∈ c.toList, b ≠ 45)
+    (haln : ∀ s ∈ aln, s.size = (ref.map (·.size)).sum) :
+    (RefSka.vcfRecords r aln).map
+        (fun rec => (rec.chrom, rec.pos, rec.ref, rec.gts.map (decodeGt rec))) =
+      (vcfSpec ref (aln.map Array.toList)).map
+        (fun x => (r.chromNames.getD x.1 "", x.2.1, x.2.2.1, x.2.2.2)) :=
+  records_eq_spec_ref r ref aln hr hsz hgap haln
+
+/-- `RefSka.new` stores exactly such a reference -/
+theorem T05_new_seq (W k : Nat) (rc : Bool) (names : List String) (contigs : List (Array UInt8))
+    (am rm : Bool) (r : RefSka) (h : RefSka.new W k rc names contigs am rm = some r) :
+    r.seq = contigs.map (fun c => c.map toUpper) := by
+  unfold RefSka.new at h
+  simp only at h
+  split at h
+  · cases h
+  · injection h with h; rw [← h]
+
+/-! ### counterexample: '-' in the reference -/
+
+def gapRef : RefSka :=
+  { k := 3, kmers := [], ambigMask := false, chromNames := ["c1"], seq := [#[65, 45, 67]], repeatCoors := [] }
+
+def gapAln : List (Array UInt8) := [#[65, 45, 67], #[65, 65, 67]]
+
+/-- If the reference has a '-' byte, a sample with a gap there gets genotype "0" (it "equals the
+reference byte"), which decodes to REF = N, while the specification reports it as missing ('.'):
+`T05_rel` fails without `hgap`. -/
+theorem gap_in_reference_counterexample :
+    RefSka.vcfRecords gapRef gapAln =
+      [{ chrom := "c1", pos := 2, ref := 78, alts := [65], gts := ["0", "1"] }] ∧
+    vcfSpec gapRef.seq (gapAln.map Array.toList) = [(0, 2, 78, [46, 65])] ∧
+    (RefSka.vcfRecords gapRef gapAln).map
+        (fun rec => (rec.chrom, rec.pos, rec.ref, rec.gts.map (decodeGt rec))) = [("c1", 2, 78, [78, 65])] := by
+  have h1 : RefSka.vcfRecords gapRef gapAln =
+      [{ chrom := "c1", pos := 2, ref := 78, alts := [65], gts := ["0", "1"] }] := by decide
+  refine ⟨h1, by decide, ?_⟩
+  rw [h1]
+  have e0 := decodeGt_render { chrom := "c1", pos := 2, ref := 78, alts := [65], gts := ["0", "1"] } (some 0)
+  have e1 := decodeGt_render { chrom := "c1", pos := 2, ref := 78, alts := [65], gts := ["0", "1"] } (some 1)
+  have r0 : render (some 0) = "0" := by decide
+  have r1 : render (some 1) = "1" := by decide
+  rw [r0] at e0; rw [r1] at e1
+  simp only [List.map_cons, List.map_nil, e0, e1]
+  rfl
+
+/-! ### non-vacuity -/
+
+/-- reference: contig c1 = "ACN", contig c2 = "GT" -/
+def exRef : RefSka :=
+  { k := 3, kmers := [], ambigMask := false, chromNames := ["c1", "c2"],
+    seq := [#[65, 67, 78], #[71, 84]], repeatCoors := [] }
+
+/-- three samples: "AGRG-", "ATNGT", "CGYGA" — a multi-allelic site (column 1: G, T, G against C),
+a gap (column 4), ambiguity codes R and Y (column 2, where the reference has N) -/
+def exAln : List (Array UInt8) :=
+  [#[65, 71, 82, 71, 45], #[65, 84, 78, 71, 84], #[67, 71, 89, 71, 65]]
+
+example : ∀ c ∈ exRef.seq, 1 ≤ c.size := by decide
+example : ∀ c ∈ exRef.seq, ∀ b ∈ c.toList, upperByte b = b := by decide
+example : ∀ c ∈ exRef.seq, ∀ b ∈ c.toList, b ≠ 45 := by decide
+example : ∀ s ∈ exAln, s.size = (exRef.seq.map (·.size)).sum := by decide
+
+example : RefSka.idxCheck exRef.seq = [(0, 0), (0, 1), (0, 2), (1, 0), (1, 1)] := by decide
+
+/-- the records the writer model produces: note REF = ALT = N at c1:3 (reference N, samples R and Y) -/
+example : RefSka.vcfRecords exRef exAln =
+    [{ chrom := "c1", pos := 1, ref := 65, alts := [67], gts := ["0", "0", "1"] },
+     { chrom := "c1", pos := 2, ref := 67, alts := [71, 84], gts := ["1", "2", "1"] },
+     { chrom := "c1", pos := 3, ref := 78, alts := [78], gts := ["1", "0", "1"] },
+     { chrom := "c2", pos := 2, ref := 84, alts := [65], gts := [".", "0", "1"] }] := by decide
+
+example : vcfSpec exRef.seq (exAln.map Array.toList) =
+    [(0, 1, 65, [65, 65, 67]), (0, 2, 67, [71, 84, 71]), (0, 3, 78, [78, 78, 78]),
+     (1, 2, 84, [46, 84, 65])] := by decide
+
+/-- `T05_rel` on the example: the decoded records -/
+example : (RefSka.vcfRecords exRef exAln).map
+      (fun rec => (rec.chrom, rec.pos, rec.ref, rec.gts.map (decodeGt rec))) =
+    [("c1", 1, 65, [65, 65, 67]), ("c1", 2, 67, [71, 84, 71]), ("c1", 3, 78, [78, 78, 78]),
+     ("c2", 2, 84, [46, 84, 65])] := by
+  rw [T05_rel exRef exAln (by decide) (by decide) (by decide) (by decide)]
+  decide
+
+/-- a record can have an empty ALT list: the only difference in the column is a gap -/
+example : RefSka.vcfRecords exRef [#[65, 67, 78, 71, 84], #[65, 67, 78, 71, 45]] =
+    [{ chrom := "c2", pos := 2, ref := 84, alts := [], gts := ["0", "."] }] := by decide
 
 end SkaModel.Props.C05
